@@ -1168,6 +1168,31 @@ class Pe:
             return env
         return env      # attribute / subscript stores: not tracked (reads of self attributes are Unknown anyway)
 
+    def raised(self, exc: ast.expr, env: dict, eff: tuple) -> list:
+        """Class name of the exception `raise <exc>` raises: `X(...)`, `X`, or what a helper of the class / module
+        (inlined here even where self-methods are otherwise opaque) returns — `raise self._make_error(...)`."""
+        outs = []
+        if isinstance(exc, ast.Call) and isinstance(exc.func, ast.Attribute) and isinstance(exc.func.value, ast.Name) \
+                and env.get(exc.func.value.id) is SELF and self.mod.method(self.cname, exc.func.attr) is not None \
+                and not any(kw.arg is None for kw in exc.keywords) and not any(isinstance(a, ast.Starred) for a in exc.args):
+            fn = Fn(self.mod.method(self.cname, exc.func.attr)[0], self.cname)
+            for vs, e2, f2 in self.eval_list(list(exc.args) + [kw.value for kw in exc.keywords], env, eff):
+                args, kwargs = vs[:len(exc.args)], dict(zip([kw.arg for kw in exc.keywords], vs[len(exc.args):]))
+                outs += self.apply(fn, args, kwargs, e2, f2, exc)
+        else:
+            outs = self.eval(exc, env, eff)
+        res = []
+        for o in outs:
+            if o[0] == "__raise__":
+                res.append((o[1], o[2], o[3]))
+                continue
+            v, e2, f2 = o
+            if isinstance(v, Sym) and v.kind in ("call", "name", "class", "inst"):
+                res.append((v.name, e2, f2))
+            else:
+                res.append((ast.unparse(exc.func if isinstance(exc, ast.Call) else exc), e2, f2))
+        return res
+
     def step(self, s: ast.stmt, env: dict, eff: tuple) -> list:
         if isinstance(s, (ast.Pass, ast.Global, ast.Nonlocal)):
             return [("next", None, env, eff)]
@@ -1195,11 +1220,9 @@ class Pe:
                 return [("return", None, env, eff)]
             return [("return", v, e2, f2) for v, e2, f2 in self.eval(s.value, env, eff)]
         if isinstance(s, ast.Raise):
-            name = "?"
-            if s.exc is not None:
-                c = s.exc.func if isinstance(s.exc, ast.Call) else s.exc
-                name = ast.unparse(c)
-            return [("raise", name, env, eff)]
+            if s.exc is None:
+                return [("raise", "?", env, eff)]
+            return [("raise", name, e2, f2) for name, e2, f2 in self.raised(s.exc, env, eff)]
         if isinstance(s, ast.Break):
             return [("break", None, env, eff)]
         if isinstance(s, ast.Continue):
